@@ -29,6 +29,9 @@ from harness import common
 
 CHILD = Path(__file__).resolve().parent / "c18_child.py"
 PLANS = [("S", 10), ("F3", 2), ("W4", 2), ("N2,5", 2), ("N3,2", 1), ("O", 2), ("K9", 2), ("K15", 1), ("U2,3", 3)]
+# ways a cache output can be unreadable: empty, torn at the first byte / in the header / in the middle / before the last byte,
+# overwritten with garbage, a valid msgpack document of the wrong type or with other keys
+DAMAGE = ["empty", "cut1", "cuthead", "cutmid", "cutlast", "garbage", "wrongtype", "scalar", "otherkeys"]
 # jobs of several commands, one plan per command (the runner stops at the first failing one)
 MULTI = [["F3", "S"], ["O", "S"], ["S", "F3"], ["N2,5", "S"], ["K9", "S"], ["O", "O", "S"], ["W4", "S"], ["U2,3", "S"], ["S", "O"],
          ["O", "F3"], ["O", "N2,5", "S"], ["S", "S"]]
@@ -77,13 +80,25 @@ def gen_history(rng, quick, mode=None):
     if rng.chance(1, 3):
         pre.append({"key": "zz_only", "marker": "only-in-destination"})
     nruns = rng.range(2, 3) if quick else rng.range(2, 4)
-    runs, tag = [], "A"
+    runs, tag, var = [], "A", ""
     for i in range(nruns):
-        if i > 0 and rng.chance(1, 4):
+        flipped = i > 0 and rng.chance(1, 4)
+        if flipped:
             tag = "B" if tag == "A" else "A"
         run = {"tag": tag, "strict": not rng.chance(1, 8)}
         if i > 0 and rng.chance(1, 3 if mode == "single" else 6):
             run["reset_dest"] = True       # a new, empty destination with the old cache directory
+        if i > 0 and not flipped and rng.chance(1, 3):
+            # the arguments change exactly ONE field of every prepared input (envars / files / return_files / one command);
+            # usually against a fresh destination, so that the cached outputs of the other input are all that is left
+            var = f"{rng.choice(['env', 'files', 'ret', 'cmd'])}{i}"
+            run["reset_dest"] = run.get("reset_dest") or rng.chance(3, 4)
+        if var:
+            run["var"] = var
+        if i > 0 and rng.chance(1, 3):
+            # cache outputs left behind by a killed run
+            jobs = [j for it in items for j in job_names(it)]
+            run["damage"] = [[rng.choice(jobs), rng.choice(DAMAGE)] for _ in range(rng.range(1, 3))]
         runs.append(run)
     return {"section": "history", "mode": mode, "items": items, "plans": plans, "pre_dest": pre, "runs": runs, "n_workers": 4,
             "shape": shape, "envars": rng.choice(["none", "empty", "some"]), "files": rng.choice(["none", "empty", "xyz"])}
@@ -112,11 +127,57 @@ def run_child(ctx, scen, idx):
     return {"crash": (r.stderr or r.stdout)[-1500:], "wall": time.time() - t0}
 
 
+def full_tag(r) -> str:
+    """the arguments of a run as one token: the tag the commands print, plus the single-field variation"""
+    return r["tag"] + (f"~{r['var']}" if r.get("var") else "")
+
+
+def normalise(scen, res):
+    """The commands print `<job>:<tag>:<attempt>`; the single-field variation of the arguments is (deliberately) not visible to
+    them.  From the counters it is known in which run each attempt happened: every payload is rewritten to carry the full
+    arguments of the run that executed it, in the cache files and in the stored results."""
+    exec_var = {}
+    for r, rec in zip(scen["runs"], res.get("runs", [])):
+        for j in rec.get("executed", []):
+            exec_var[(j, rec["attempts"].get(j))] = r.get("var", "")
+
+        def fix(pay):
+            # (the tag stays as printed by the command: only the invisible variation is added)
+            parts = pay.rsplit(":", 2)
+            if len(parts) == 3 and parts[2].isdigit() and exec_var.get((parts[0], int(parts[2]))) and "~" not in parts[1]:
+                return f"{parts[0]}:{parts[1]}~{exec_var[(parts[0], int(parts[2]))]}:{parts[2]}"
+            return pay
+
+        for j, v in rec.get("cache", {}).items():
+            if isinstance(v[1], str) and v[0] != "unreadable":
+                v[1] = fix(v[1])
+        for k, v in list(rec.get("dest", {}).items()):
+            if v and "|" in v and not any(p["key"] == k and p["marker"] == v for p in scen["pre_dest"]):
+                head, body = v.split("|", 1)
+                # the head is the tag the post-processing saw; the run that stored the item is the first whose destination has it
+                rec["dest"][k] = head + "|" + ",".join(fix(p) for p in body.split(","))
+    # the head of a stored value: full arguments of the run in which the key first appeared
+    seen = {p["key"] for p in scen["pre_dest"]}
+    stored_in = {}
+    for r, rec in zip(scen["runs"], res.get("runs", [])):
+        if r.get("reset_dest"):
+            seen, stored_in = set(), {}
+        for k in rec.get("dest", {}):
+            if k not in seen:
+                seen.add(k)
+                stored_in[k] = full_tag(r)
+        for k, v in list(rec.get("dest", {}).items()):
+            if k in stored_in and v and "|" in v and v.split("|", 1)[0] == stored_in[k].split("~")[0]:
+                rec["dest"][k] = stored_in[k] + "|" + v.split("|", 1)[1]
+    return res
+
+
 def model_line(scen) -> str:
     items = ",".join(f"{hx(it['key'])}:{'-' if it['subs'] is None else it['subs']}" for it in scen["items"])
     pre = ",".join(f"{hx(p['key'])}={hx(p['marker'])}" for p in scen["pre_dest"]) or "-"
     plans = ",".join(f"{hx(j)}={p.replace(',', '/').replace(';', '+')}" for j, p in scen["plans"].items()) or "-"
-    runs = ";".join(f"{r['tag']}:{1 if r.get('strict', True) else 0}:{1 if r.get('reset_dest') else 0}" for r in scen["runs"])
+    runs = ";".join(f"{full_tag(r)}:{1 if r.get('strict', True) else 0}:{1 if r.get('reset_dest') else 0}:"
+                    + ("+".join(hx(j) for j, _ in r.get("damage", [])) or "-") for r in scen["runs"])
     return f"hist r {items} {pre} {plans} {runs}"
 
 
@@ -129,7 +190,7 @@ def observed_line(scen, res) -> str:
             continue
         d = ",".join(f"{hx(k)}={hx(v or '')}" for k, v in sorted(rec["dest"].items(), key=lambda kv: hx(kv[0])))
         c = ",".join(f"{hx(j)}={rec['cache'][j][0]}/{hx(rec['cache'][j][1]) if rec['cache'][j][1] is not None else '-'}"
-                     for j in jobs if j in rec["cache"])
+                     for j in jobs if j in rec["cache"] and rec["cache"][j][0] != "unreadable")      # (unreadable = no output)
         a = ",".join(f"{hx(j)}={rec['attempts'][j]}" for j in jobs if rec["attempts"].get(j))
         out.append(f"ex={','.join(sorted(hx(j) for j in rec['executed']))} dest={d} cache={c} att={a}")
     return " | ".join(out)
@@ -169,7 +230,13 @@ def oracle(ctx, scen, res):
         tag = {"history": scen, "run": ri}
         if r.get("reset_dest"):
             dest = {}
+        for j, _kind in r.get("damage", []):
+            cache.pop(j, None)            # an unreadable output is no output
         if rec["raised"]:
+            if r.get("damage"):
+                ctx.violation("C18:jobmap-aborted-on-damaged-cache-output",
+                              f"run {ri}: jobmap raised {rec['raised']} with damaged cache outputs {r['damage']} instead of computing those items again: {rec.get('trace', '')[-160:]}", tag)
+                return
             only = sorted(set(dest) - src_keys)
             if rec["raised"] == "KeyError" and only:
                 ctx.violation("C18:jobmap-raised-on-destination-only-key", f"run {ri}: jobmap raised KeyError; keys only in the destination: {only}", tag)
@@ -177,6 +244,15 @@ def oracle(ctx, scen, res):
                 ctx.violation("C18:vectorised-rerun-raised", f"run {ri}: vectorised jobmap with cached outputs raised AttributeError: {rec.get('trace', '')[-160:]}", tag)
             else:
                 ctx.violation("C18:jobmap-raised", f"run {ri}: jobmap raised {rec['raised']}: {rec.get('trace', '')[-200:]}", tag)
+            return
+        squat = [j for j, kind in r.get("damage", []) if kind == "dir"]
+        if squat:
+            # a directory squats the output path: the runner cannot write there, so nothing can be stored; the call must still
+            # finish (checked above) and must try the job again — the rest of such a history is outside the model
+            todo_jobs = {j for it in items if it["key"] not in dest for j in job_names(it)}
+            for j in squat:
+                if j in todo_jobs and j not in rec["executed"]:
+                    ctx.violation("C18:invalid-cache-reused", f"run {ri}: job {j} (a directory in place of its output file) was not executed", tag)
             return
         executed = rec["executed"]
         if len(set(executed)) != len(executed):
@@ -188,7 +264,7 @@ def oracle(ctx, scen, res):
         if extra:
             ctx.violation("C18:executed-item-already-in-destination", f"run {ri}: executed {sorted(extra)} although their items are in the destination (or not in the source)", tag)
         for j in sorted(todo_jobs):
-            valid = j in cache and cache[j][0] == 0 and (not r.get("strict", True) or last_tag.get(j) == r["tag"])
+            valid = j in cache and cache[j][0] == 0 and (not r.get("strict", True) or last_tag.get(j) == full_tag(r))
             if valid and j in ex:
                 ctx.violation("C18:valid-cache-not-reused", f"run {ri}: job {j} has a cached successful output for the same input and was executed again", tag)
             if not valid and j not in ex:
@@ -199,16 +275,16 @@ def oracle(ctx, scen, res):
                               f"run {ri}: job {j} was not executed again although its latest run (attempt {attempts[j]}, plan {scen['plans'].get(j, 'S')}) "
                               f"did not succeed; the cache file records exit code {cache[j][0]}", tag)
         for j in ex:
-            last_tag[j] = r["tag"]
-        cache = {j: tuple(v) for j, v in rec["cache"].items()}
+            last_tag[j] = full_tag(r)
+        cache = {j: tuple(v) for j, v in rec["cache"].items() if v[0] != "unreadable"}
         attempts = dict(rec["attempts"])
         # what was executed is the input prepared for THIS call (its arguments), and its record says how it really ended
         for j in sorted(ex):
             plan, att = scen["plans"].get(j, "S"), attempts.get(j, 0)
-            want_payload = f"{j}:{r['tag']}:{att}"
+            want_payload = f"{j}:{full_tag(r)}:{att}"
             if j in cache and cache[j][1] is not None and cache[j][1] != want_payload:
                 ctx.violation("C18:executed-input-not-prepared-with-current-arguments",
-                              f"run {ri}: job {j} was executed with arguments {r['tag']!r} (attempt {att}) but its output {cache[j][1]!r} comes from another input", tag)
+                              f"run {ri}: job {j} was executed with arguments {full_tag(r)!r} (attempt {att}) but its output {cache[j][1]!r} comes from another input", tag)
             if j in cache and (cache[j][0] == 0) != truly_succeeded(plan, att):
                 ctx.violation("C18:recorded-exit-code-wrong",
                               f"run {ri}: job {j} (plan {plan}, attempt {att}) {'succeeded' if truly_succeeded(plan, att) else 'did not succeed'} "
@@ -226,7 +302,7 @@ def oracle(ctx, scen, res):
             elif k not in rec["dest"] and ok:
                 ctx.violation("C18:succeeded-item-not-stored", f"run {ri}: item {k!r} succeeded ({ents}) but is not in the destination", tag)
             elif k in rec["dest"] and ok:
-                want = r["tag"] + "|" + ",".join(e[1] for e in ents)
+                want = full_tag(r) + "|" + ",".join(e[1] for e in ents)
                 if rec["dest"][k] != want:
                     ctx.violation("C18:stored-result-wrong", f"run {ri}: item {k!r} stored {rec['dest'][k]!r}, processed result is {want!r}", tag)
             if k in rec["dest"] and r.get("strict", True):
@@ -235,9 +311,9 @@ def oracle(ctx, scen, res):
                 body = (rec["dest"][k] or "").split("|", 1)[-1]
                 for j, pay in zip(job_names(it), body.split(",")):
                     parts = pay.rsplit(":", 2)
-                    if len(parts) != 3 or parts[0] != j or parts[1] != r["tag"]:
+                    if len(parts) != 3 or parts[0] != j or parts[1] != full_tag(r):
                         ctx.violation("C18:stored-result-from-other-arguments",
-                                      f"run {ri} (arguments {r['tag']!r}): item {k!r} stored {rec['dest'][k]!r} — the part for job {j!r} was not computed from this call's input", tag)
+                                      f"run {ri} (arguments {full_tag(r)!r}): item {k!r} stored {rec['dest'][k]!r} — the part for job {j!r} was not computed from this call's input", tag)
                         break
                     if not truly_succeeded(scen["plans"].get(j, "S"), int(parts[2])):
                         ctx.violation("C18:failed-item-stored",
@@ -268,7 +344,9 @@ def run(ctx):
                 "the n-th attempt) / O (return file omitted); 2 of 5 jobs have 2..3 commands with one plan each (compute + tolerant collect step, "
                 "failure followed by commands that would succeed, …); job shapes: result in a returned file or on stdout with return_files None / (), "
                 "envars None / {} / set, files None / {} / present; destinations pre-populated with source keys and destination-only keys; "
-                "argument tag changed between runs with probability 1/4, non-strict hash check 1/8, the destination replaced by a new empty "
+                "argument tag changed between runs with probability 1/4, arguments that change exactly one field of the prepared inputs "
+                "(envars / files / return_files / one command) 1/3, cache outputs made unreadable before a run (empty, torn at four positions, garbage, "
+                "wrong msgpack type / keys) 1/3, non-strict hash check 1/8, the destination replaced by a new empty "
                 "one (cache directory kept) before a later run with probability 1/3 (single) / 1/6 (vectorised). Non-trivial: some job does not "
                 "simply succeed, or the destination is pre-populated, or the arguments change. Distinct by canonical history.")
     ctx.assumptions += [
@@ -279,7 +357,7 @@ def run(ctx):
     ]
     ctx.proof(props=["Molli.Props.C18"], gen=[])
     corpus = [c for c in load_corpus() if c.get("section") == "history"]
-    n = 10 if ctx.quick() else 120
+    n = 8 if ctx.quick() else 120
     scens = corpus + [gen_history(ctx.rng, ctx.quick()) for _ in range(n)]
     workers = 6 if ctx.quick() else 8
     results = [None] * len(scens)
@@ -305,6 +383,11 @@ def run(ctx):
             ctx.count("history-destination-only-key")
         if len({r["tag"] for r in s["runs"]}) > 1:
             ctx.count("history-argument-change")
+        for r in s["runs"]:
+            if r.get("var"):
+                ctx.count("history-arguments-change-one-field:" + r["var"].rstrip("0123456789"))
+            for _j, kind in r.get("damage", []):
+                ctx.count(f"history-damaged-cache-output:{kind}")
         if any(r.get("reset_dest") for r in s["runs"]):
             ctx.count("history-destination-replaced-by-empty-one")
         if res.get("timeout"):
@@ -315,8 +398,10 @@ def run(ctx):
             continue
         walls.append(res["wall"])
         ctx.count("jobs-executed", sum(len(r["executed"]) for r in res["runs"]))
+        normalise(s, res)
         oracle(ctx, s, res)
-        lines.append((model_line(s), observed_line(s, res), s))
+        if not any(kind == "dir" for r in s["runs"] for _j, kind in r.get("damage", [])):
+            lines.append((model_line(s), observed_line(s, res), s))
         ctx.sample({"history": {k: s[k] for k in ("mode", "plans", "pre_dest", "runs")},
                     "executed_per_run": [r["executed"] for r in res["runs"]],
                     "dest_after": res["runs"][-1]["dest"] if res["runs"] else None}, limit=3)
